@@ -96,6 +96,9 @@ func (a absLevel) concretise(r *mrand.Rand, p *world.Platform) world.Level {
 type absModule struct {
 	kind   string // "absent" | "omitted" | "wrong-id" | "levels"
 	levels []absIsv
+	// pos places the matching identity among two other identities (0 = last, as Intel lists a single one; 1 = first; 2 = middle)
+	// and other is the status of the other identities' only level (isvsvn 0: it would match any TD)
+	pos, other int
 }
 type absIsv struct {
 	rel    int // -1 below, 0 equal, +1 above the module's isvsvn (TEE_TCB_SVN[0])
@@ -110,6 +113,9 @@ func (m absModule) String() string {
 	for _, l := range m.levels {
 		s = append(s, fmt.Sprintf("%+d:%s", l.rel, world.Statuses[l.status]))
 	}
+	if m.pos != 0 {
+		return fmt.Sprintf("levels[%s]@%d-among-%s", strings.Join(s, ";"), m.pos, world.Statuses[m.other])
+	}
 	return "levels[" + strings.Join(s, ";") + "]"
 }
 
@@ -122,12 +128,12 @@ func allAbsModules(two bool) []absModule {
 		}
 	}
 	for _, a := range ones {
-		out = append(out, absModule{"levels", []absIsv{a}})
+		out = append(out, absModule{kind: "levels", levels: []absIsv{a}})
 	}
 	if two {
 		for _, a := range ones {
 			for _, b := range ones {
-				out = append(out, absModule{"levels", []absIsv{a, b}})
+				out = append(out, absModule{kind: "levels", levels: []absIsv{a, b}})
 			}
 		}
 	}
@@ -156,6 +162,15 @@ func (m absModule) apply(w *world.World) {
 			ls = append(ls, world.IsvLevel{Isv: uint32(int(p.TeeTcb[0]) + l.rel), Status: world.Statuses[l.status]})
 		}
 		w.Tcb.Mods = []world.ModIdent{{ID: "TDX_ff", Levels: []world.IsvLevel{{Isv: 0, Status: "UpToDate"}}}, {ID: id, Levels: ls}}
+		if m.pos != 0 {
+			o1 := world.ModIdent{ID: fmt.Sprintf("TDX_%02x", p.TeeTcb[1]+1), Levels: []world.IsvLevel{{Isv: 0, Status: world.Statuses[m.other]}}}
+			o2 := world.ModIdent{ID: fmt.Sprintf("TDX_%02x", p.TeeTcb[1]-1), Levels: []world.IsvLevel{{Isv: 0, Status: world.Statuses[m.other]}}}
+			if m.pos == 1 {
+				w.Tcb.Mods = []world.ModIdent{{ID: id, Levels: ls}, o1, o2}
+			} else {
+				w.Tcb.Mods = []world.ModIdent{o1, {ID: id, Levels: ls}, o2}
+			}
+		}
 	}
 }
 
@@ -270,8 +285,8 @@ func c04Case(base *world.World, r *mrand.Rand, lv []absLevel, mod absModule, ide
 func reportProblem(c *world.Case, v *ref.Verdict) string {
 	noLevel := false
 	for _, rs := range v.Reasons {
-		if rs.Prop == "C04" && (rs.Code == "no-matching-level") {
-			noLevel = true
+		if rs.Prop == "C04" && (rs.Code == "no-matching-level" || rs.Code == "module-identity-missing" || rs.Code == "no-matching-module-level") {
+			noLevel = true // no platform level, no identity for the module version, or no level of that identity matches
 		}
 	}
 	if !noLevel {
@@ -291,7 +306,7 @@ func reportProblem(c *world.Case, v *ref.Verdict) string {
 		return "reporting API panics: " + pv + "\n" + st
 	}
 	if err == nil {
-		return "no TCB level matches, yet SupportedTcbLevelsFromCollateral returned a level and a nil error"
+		return "no TCB level matches (platform level, module identity or module level), yet SupportedTcbLevelsFromCollateral returned a level and a nil error"
 	}
 	// the same through an options value that successfully verified the unbroken twin just before
 	if c.TwinRef != nil {
@@ -368,7 +383,7 @@ func c04(x *mon.Ctx) {
 	for _, id := range identAbs {
 		for k := 0; k < 2; k++ {
 			for rep := 0; rep < x.Pick(8, 64); rep++ {
-				jobs = append(jobs, job{k, []absLevel{good}, absModule{"levels", []absIsv{{0, 0}}}, id, "identity/" + id})
+				jobs = append(jobs, job{k, []absLevel{good}, absModule{kind: "levels", levels: []absIsv{{0, 0}}}, id, "identity/" + id})
 			}
 		}
 	}
@@ -381,7 +396,19 @@ func c04(x *mon.Ctx) {
 					if second >= 0 {
 						lv = append(lv, absLevel{1, 1, 1, second})
 					}
-					jobs = append(jobs, job{k, lv, absModule{"levels", []absIsv{{0, 0}}}, "match", "level-shape/" + sh})
+					jobs = append(jobs, job{k, lv, absModule{kind: "levels", levels: []absIsv{{0, 0}}}, "match", "level-shape/" + sh})
+				}
+			}
+		}
+	}
+	// ---- the matching module identity is not the last one listed; the others would give another answer
+	for k := 1; k < 3; k++ {
+		for _, rel := range []int{-1, 0, 1} {
+			for st := range world.Statuses {
+				for _, pos := range []int{1, 2} {
+					for _, other := range []int{0, 4} {
+						jobs = append(jobs, job{k, []absLevel{good}, absModule{kind: "levels", levels: []absIsv{{rel, st}}, pos: pos, other: other}, "match", "module-order/" + fmt.Sprint(pos)})
+					}
 				}
 			}
 		}
@@ -422,6 +449,27 @@ func c04(x *mon.Ctx) {
 			// the TCB Info is served under the URL of the certificate's FMSPC; its content names another one
 		}
 		run(i, c)
+	})
+	// ---- a sample of the configurations once more with the library logging at verbosity 2 (every log argument is evaluated)
+	x.AtVerbosity(2, func() {
+		var vi []int
+		for i, j := range jobs {
+			if strings.HasPrefix(j.class, "level-shape/") && i%4 == 0 || strings.HasPrefix(j.class, "2-level/") && i%16 == 0 || strings.HasPrefix(j.class, "module-order/") {
+				vi = append(vi, i)
+			}
+		}
+		x.Each(len(vi), func(n int) {
+			i := vi[n]
+			j := jobs[i]
+			var ls []string
+			for _, a := range j.lv {
+				ls = append(ls, a.String())
+			}
+			c := c04Case(bases[j.k], x.Rand(fmt.Sprint("c", i)), j.lv, j.mod, j.ident, j.class, fmt.Sprintf("[%s] module=%s ident=%s#%d", strings.Join(ls, " | "), j.mod, j.ident, i))
+			c.Class = "verbose/" + strings.SplitN(j.class, "/", 2)[0]
+			c.ShadowSkip = true
+			run(i, c)
+		})
 	})
 	// ---- beyond the abstraction: 3-6 levels, arbitrary vectors
 	nr := x.Pick(3000, 200000)
@@ -467,6 +515,8 @@ func c04(x *mon.Ctx) {
 	x.Require("2-level/tee1=1", 3, 1000, 2000)
 	x.Require("2-level/tee1=2", 3, 1000, 2000)
 	x.Require("1-level/tee1>=10", 5, 100, 300)
+	x.Require("module-order/1", 8, 60, 84)
+	x.Require("module-order/2", 8, 60, 84)
 	for _, sh := range levelShapes {
 		if sh == "status-omitted" {
 			x.Require("level-shape/"+sh, 0, 18, 18) // the level matches, and a level without a status is not UpToDate
